@@ -396,7 +396,7 @@ where
 {
     let r = catch(|| {
         cfg.optimize_with(problem, |state| {
-            state.insert(Random::new(seed));
+            state.insert(crate::fixtures::random_for(seed));
             match eval {
                 EvalKind::Sequential => state.insert_evaluator(Sequential::<P>::new()),
                 EvalKind::Parallel => state.insert_evaluator(Parallel::<P>::new()),
@@ -427,7 +427,7 @@ where
         Err(e) => return Err(format!("warm-up run: {e}")),
     };
     while state.populations_mut().try_pop().is_some() {}
-    state.insert(Random::new(seed));
+    state.insert(crate::fixtures::random_for(seed));
     state.insert(StepObserver::<P>(Box::new(Obs { audit, names: HashMap::new(), stack: Vec::new(), main_body: None, _p: std::marker::PhantomData })));
     match catch(|| cfg.run(problem, &mut state)) {
         Ok(Ok(())) => Ok(state),
@@ -465,7 +465,7 @@ where
 {
     let r = catch(|| {
         cfg.optimize_with(problem, |state| {
-            state.insert(Random::new(seed));
+            state.insert(crate::fixtures::random_for(seed));
             match eval {
                 EvalKind::Sequential => state.insert_evaluator(Sequential::<P>::new()),
                 EvalKind::Parallel => state.insert_evaluator(Parallel::<P>::new()),
